@@ -8,7 +8,8 @@ Section Leaves.
   Variable m : pmode.
   Variable nm : names.
   Variable env : penv.
-  Notation pr := (print m nm).
+  Variable pol : policy.
+  Notation pr := (gprint m nm pol).
   Notation xl := (pm_xlsx m).
 
   (* ---- references ------------------------------------------------------------------------- *)
@@ -77,6 +78,7 @@ Section Leaves.
   Proof.
     unfold startb, start_tok. intro H. apply andb_true_iff in H as [H _]. apply andb_true_iff in H as [H H3]. apply andb_true_iff in H as [H1 H2].
     repeat split; apply negb_true_iff; assumption.
+  Qed.
 
   Lemma startb_not_lbracket t : startb t = true -> t <> TLBracket.
   Proof. intros H ->. discriminate H.
@@ -100,11 +102,11 @@ Section Leaves.
     end.
 
   Lemma heads e :
-    image_at m nm env false e = true -> fragment e = true -> no_bad xl e = true ->
+    image_at m nm env false e = true -> fragment e = true -> no_bad_with pol xl e = true ->
     head_spec (rank_x xl e) (pr e).
   Proof.
-    induction e using ast_rect'; intros Hi Hf Hb; cbn [image_at fragment no_bad] in Hi, Hf, Hb; try discriminate;
-      cbn [print]; split_and.
+    induction e using ast_rect'; intros Hi Hf Hb; cbn [image_at fragment no_bad_with] in Hi, Hf, Hb; try discriminate;
+      cbn [gprint]; split_and.
     - apply head_spec_any; reflexivity.
     - apply head_spec_any; reflexivity.
     - apply head_spec_any; reflexivity.
@@ -113,12 +115,12 @@ Section Leaves.
     - (* ERange *) unfold print_range. unfold range_ok in *.
       destruct (print_pref m p); [|discriminate]. destruct (print_pref m q); [|discriminate].
       apply head_spec_any; reflexivity.
-    - (* ERangeOp *) apply head_spec_app.
-      match goal with H : negb (bad_child _ _) = true |- _ => apply negb_true_iff in H; cbn [bad_child] in H;
+    - (* ERangeOp *) apply head_spec_app. apply wrap_head. intro E.
+      match goal with H : negb (bad_child_with _ _ _) = true |- _ => apply negb_true_iff in H; cbn [bad_child_with] in H;
         apply orb_false_iff in H as [Hl Hr] end.
-      apply ltb_false in Hl.
+      rewrite E in Hl. cbn [negb andb] in Hl. apply ltb_false in Hl.
       eapply head_spec_weaken; [|apply IHe1; assumption]. left. change (rank_x xl (ERangeOp e1 e2)) with 2. lia.
-    - (* EConcat *) apply head_spec_app. eapply head_spec_weaken; [|apply IHe1; assumption].
+    - (* EConcat *) apply head_spec_app. apply wrap_head. intros _. eapply head_spec_weaken; [|apply IHe1; assumption].
       right. cbn. lia.
     - (* ESum *) apply head_spec_app. apply wrap_head. intros _.
       eapply head_spec_weaken; [|apply IHe1; assumption]. right. cbn. lia.
@@ -127,22 +129,24 @@ Section Leaves.
     - (* EPow *) apply head_spec_app. apply wrap_head. intros _.
       eapply head_spec_weaken; [|apply IHe1; assumption]. right. cbn. lia.
     - (* EFun *) destruct (bool_of_name nm (fn_name nm f)); apply head_spec_any; reflexivity.
+    - (* ELambdaDef *) apply head_spec_any; reflexivity.
+    - (* ELambdaCall *) destruct e; try discriminate. apply head_spec_any; reflexivity.
     - (* ENamedFun *) apply head_spec_any; reflexivity.
     - (* EArray *) apply head_spec_any; reflexivity.
     - apply head_spec_any; reflexivity.
     - apply head_spec_any; reflexivity.
     - apply head_spec_any; reflexivity.
     - (* EAt *) destruct xl eqn:Hx; [apply head_spec_any; reflexivity|].
-      exists TAt, (pr e). repeat split; try reflexivity. cbn. intro; lia.
-    - (* ESpill *) destruct xl eqn:Hx; [apply head_spec_any; reflexivity|]. apply head_spec_app.
-      match goal with H : negb (bad_child false _) = true |- _ => apply negb_true_iff in H; cbn [bad_child negb andb] in H end.
-      match goal with H : (0 <? rank_x false e) = false |- _ => apply ltb_false in H end.
+      eexists TAt, _. split; [reflexivity|]. repeat split; try reflexivity. cbn. intro; lia.
+    - (* ESpill *) destruct xl eqn:Hx; [apply head_spec_any; reflexivity|]. apply head_spec_app. apply wrap_head. intro E.
+      match goal with H : negb (bad_child_with _ _ _) = true |- _ => apply negb_true_iff in H; cbn [bad_child_with negb andb] in H end.
+      match goal with H : negb (pol_spill pol e) && _ = false |- _ => rewrite E in H; cbn [negb andb] in H; apply ltb_false in H end.
       eapply head_spec_weaken; [|apply IHe; assumption].
       left. change (rank_x false (ESpill e)) with 1. lia.
-    - (* ECmp *) apply head_spec_app. eapply head_spec_weaken; [|apply IHe1; assumption].
+    - (* ECmp *) apply head_spec_app. apply wrap_head. intros _. eapply head_spec_weaken; [|apply IHe1; assumption].
       right. cbn. lia.
-    - (* ENeg *) exists (TAddition SMinus), (wrap (neg_parens e) (pr e)). repeat split; try reflexivity; cbn; intro; lia.
-    - (* EPct *) apply head_spec_app. eapply head_spec_weaken; [|apply IHe; assumption]. right. cbn. lia.
+    - (* ENeg *) exists (TAddition SMinus), (wrap (pol_neg pol e) (pr e)). repeat split; try reflexivity; cbn; intro; lia.
+    - (* EPct *) apply head_spec_app. apply wrap_head. intros _. eapply head_spec_weaken; [|apply IHe; assumption]. right. cbn. lia.
     - (* EErr *) unfold is_terror in *. destruct (err_tokens nm e) as [|t l]; [discriminate|].
       destruct t; try discriminate. destruct l; [|discriminate]. apply head_spec_any; reflexivity.
   Qed.
